@@ -143,6 +143,19 @@ Theorem load_and_verify_shape :
       classified PS sig_ok allowed pcall sp_ids sp_state fuel gfuel (topo (loaded raws)) ps rs1 ps'.
 Proof. intros. eapply load_shape; eauto. Qed.
 
+(* ---- RequestBackfill, for any providers ----
+   the returned events carry pairwise different IDs; without starting points nothing is asked
+   and nothing is returned. (Which events are taken: those LoadAndVerify classified as passing
+   or as failing only the signature check - Fed/LoadProofs.take_results_spec; the code documents
+   that signature failures are passed on.) *)
+Theorem backfill_returns_unique_ids :
+  forall PS sig_ok allowed pcall sp_ids sp_state topo servers_at backfill
+         fuel gfuel vk from_ids limit (ps : PS) evs lastErr ps',
+    request_backfill PS sig_ok allowed pcall sp_ids sp_state topo servers_at backfill
+                     fuel gfuel vk from_ids limit ps = (BfResult evs lastErr, ps') ->
+    NoDup (map eid evs) /\ (from_ids = [] -> evs = [] /\ lastErr = false /\ ps' = ps).
+Proof. intros. eapply backfill_unique_ids; eauto. Qed.
+
 (* ---- liveness note ----
    a provider that answers the request for a missing auth event x with another state event,
    every time, keeps checkAllowedByAuthEvents in its retry loop: no fuel suffices *)
@@ -209,6 +222,7 @@ Print Assumptions duplicate_state_key_fails.
 Print Assumptions non_state_event_fails.
 Print Assumptions auth_rules_at_state_accepts_iff.
 Print Assumptions load_and_verify_shape.
+Print Assumptions backfill_returns_unique_ids.
 Print Assumptions provider_that_keeps_changing_spins.
 Print Assumptions instance_allowed_is_stutter_invariant.
 Print Assumptions ex_allowed_stutter_concrete.
